@@ -2925,7 +2925,9 @@ class CppEmitter(Visitor):
         active = self._active_ctx_for(e)
         if not isinstance(active, EFloatContext):
             return None
-        rounded = active.round(e.arg.as_rational())
+        # `as_real`, not `as_rational`: the literal `-0.0` is a value too, and
+        # a `Fraction` would round it as `+0`
+        rounded = active.round(e.arg.as_real())
         if rounded.isinf or rounded.isnan:
             # An overflowing literal is a value the target format does have,
             # but ``HUGE_VAL``/``NAN`` are a separate spelling; leave it.
